@@ -104,7 +104,7 @@ func (m *c07Mon) present(f *webSessionFactory, text, class, id string) {
 }
 
 func TestVerifC07(t *testing.T) {
-	R := vr.New("C07", "tokens", "tokens issued for user names using every grammar character (and hostile names with ':'), both admin flags; presented strings: every single-bit flip of nonce||ciphertext, every single-character substitution of the text by every base64url character, '=' and ':', all nonce/ciphertext splices between distinct tokens, all prefix/suffix truncations, extensions by 1..64 bytes, tokens of a second factory and of a factory created after restart, chosen plaintexts sealed with the factory's own AEAD (ages around the lifetime, future dates, lenient admin flags, 2 and 4 fields, non-numeric time); nonce uniqueness over sequential and 16-way concurrent issuance. Non-trivial: presented string differs from every issued token text; distinct by presented string")
+	R := vr.New("C07", "tokens", "tokens issued for user names using every grammar character (and hostile names with ':'), both admin flags; presented strings: every single-bit flip of nonce||ciphertext, every single-character substitution of the text by every base64url character, '=' and ':', all nonce/ciphertext splices between distinct tokens, all prefix/suffix truncations, extensions by 1..64 bytes, tokens of a second factory and of a factory created after restart, chosen plaintexts sealed with the factory's own AEAD (ages around the lifetime incl. issue times within one second of the edge judged by a nanosecond clock bracket, future dates, lenient admin flags, 2 and 4 fields, non-numeric time); nonce uniqueness over sequential and 16-way concurrent issuance. Non-trivial: presented string differs from every issued token text; distinct by presented string")
 	defer R.Write()
 	rng := R.Rand("c07")
 	life := 600 * time.Second
@@ -279,6 +279,45 @@ func TestVerifC07(t *testing.T) {
 				R.Violate("c07:plaintext-identity:"+pc.class, fmt.Sprintf("got (%q,%v)", user, admin), "pt/"+pc.class, nil)
 			}
 			break
+		}
+	}
+	// ages at the very edge of the lifetime, decided by a wall-clock bracket in nanoseconds: the token is sealed for a
+	// whole-second issue time chosen relative to the current second, the check is made mid-second, and the clock is
+	// read before and after the check; the verdict is required only when both readings agree on it.
+	for rep := 0; rep < vr.Pick(2, 6); rep++ {
+		for _, j := range []int64{-L - 1, -L, -L + 1, -1, 0, 1} {
+			for frac := time.Now().Nanosecond(); frac < 150e6 || frac > 650e6; frac = time.Now().Nanosecond() {
+				time.Sleep(20 * time.Millisecond)
+			}
+			t0 := time.Now()
+			stamp := t0.Unix() + j
+			tok := seal(fmt.Sprintf("bob:true:%d", stamp))
+			var st int
+			pan := vr.Safe(func() { st, _, _, _ = f.Check(tok) })
+			t1 := time.Now()
+			ageMin := t0.UnixNano() - stamp*1e9
+			ageMax := t1.UnixNano() - stamp*1e9
+			class := fmt.Sprintf("edge:issue=now%+d-lifetime", j+L)
+			if j >= -1 {
+				class = fmt.Sprintf("edge:issue=now%+d", j)
+			}
+			var want bool
+			switch {
+			case ageMin > L*1e9 || ageMax < 0:
+				want = false
+			case ageMin >= 0 && ageMax < L*1e9:
+				want = true
+			default:
+				R.Count("edge_ambiguous", 1)
+				continue
+			}
+			R.Case(fmt.Sprintf("%s/%d", class, rep), true)
+			R.Count("edge_ages", 1)
+			if pan != "" {
+				R.Violate("c07:panic:plaintext:"+class, pan, "edge", nil)
+			} else if (st == http.StatusOK) != want {
+				R.Violate(fmt.Sprintf("c07:edge-age:%s:accepted=%v", class, st == http.StatusOK), fmt.Sprintf("token issued at %d checked between %d.%09d and %d.%09d (age %.3f..%.3f s, lifetime %d s): status %d, expected accepted=%v", stamp, t0.Unix(), t0.Nanosecond(), t1.Unix(), t1.Nanosecond(), float64(ageMin)/1e9, float64(ageMax)/1e9, L, st, want), "edge", nil)
+			}
 		}
 	}
 	// far-away time stamps: every power of two distance on both sides, and random 64-bit values
